@@ -77,13 +77,13 @@ impl RegisterAllocator {
     }
 
     /// Reserve a specific number of consecutive registers (for function args)
-    pub fn reserve_range(&mut self, count: u8) -> Result<Register, JsError> {
-        // Check for overflow - if checked_add returns None, we've exceeded u8::MAX
-        if self.next.checked_add(count).is_none() {
-            return Err(JsError::internal_error(
-                "Too many registers needed (max 255)",
-            ));
-        }
+    pub fn reserve_range(&mut self, count: usize) -> Result<Register, JsError> {
+        // Check for overflow - the count itself may not fit a register index (e.g. an array
+        // literal with 256 elements), and next + count must not exceed u8::MAX
+        let count = u8::try_from(count)
+            .ok()
+            .filter(|c| self.next.checked_add(*c).is_some())
+            .ok_or_else(|| JsError::internal_error("Too many registers needed (max 255)"))?;
 
         let start = self.next;
         self.next += count;
@@ -564,7 +564,7 @@ impl BytecodeBuilder {
     }
 
     /// Reserve a range of consecutive registers
-    pub fn reserve_registers(&mut self, count: u8) -> Result<Register, JsError> {
+    pub fn reserve_registers(&mut self, count: usize) -> Result<Register, JsError> {
         self.registers.reserve_range(count)
     }
 }
